@@ -16,6 +16,7 @@
 #include <pistache/peer.h>
 #include <pistache/transport.h>
 
+#include <algorithm>
 #include <cstring>
 #include <ctime>
 #include <iomanip>
@@ -471,7 +472,25 @@ namespace Pistache::Http
             }
 
             if (size == 0)
+            {
+                // last-chunk: the message only ends with the empty line that follows
+                // it; trailer fields, if any, are skipped
+                StreamCursor::Revert revert(cursor);
+                for (;;)
+                {
+                    const size_t lineStart = cursor;
+                    while (!cursor.eol())
+                        if (!cursor.advance(1))
+                            return Incomplete;
+
+                    const bool emptyLine = (static_cast<size_t>(cursor) == lineStart);
+                    cursor.advance(2);
+                    if (emptyLine)
+                        break;
+                }
+                revert.ignore();
                 return Final;
+            }
 
             message->body_.reserve(size);
             StreamCursor::Token chunkData(cursor);
@@ -479,9 +498,11 @@ namespace Pistache::Http
 
             if (available + alreadyAppendedChunkBytes < size + 2)
             {
-                cursor.advance(available);
-                message->body_.append(chunkData.rawText(), available);
-                alreadyAppendedChunkBytes += available;
+                // only chunk data goes to the body, never a part of the trailing CRLF
+                const ssize_t dataAvailable = std::min(available, size - alreadyAppendedChunkBytes);
+                cursor.advance(dataAvailable);
+                message->body_.append(chunkData.rawText(), dataAvailable);
+                alreadyAppendedChunkBytes += dataAvailable;
                 return Incomplete;
             }
             cursor.advance(size - alreadyAppendedChunkBytes);
